@@ -22,9 +22,12 @@ EXPLANATION = ("class invariant _buffer == net[delivered : received] established
 
 def units(tier):
     us = []
-    for q in ("_recv", "read", "readline", "__init__"):
+    for q in ("_recv", "read", "readline", "__init__", "dechunk"):
         us += func_units(f"{W}.{q}", tier)
     us += func_units(R + ".__init__", tier)
+    from spec import api
+    from props.common import ground_unit as _gu
+    us.append(_gu("api.signatures", api.signature_lemmas(['pyrtcm.socketwrapper.SocketWrapper.__init__', 'pyrtcm.rtcmreader.RTCMReader.__init__'])))
     return us
 
 
